@@ -671,7 +671,7 @@ class BuiltinsMixin(AccessMixin):
                 def get(a, k, n, f):
                     key = norm_int(I.hash_check(a[0], n, f))
                     dflt = a[1] if len(a) > 1 else None
-                    if isinstance(key, Sym):
+                    if isinstance(key, Sym) or (isinstance(key, External) and obj and all(isinstance(k_, int) for k_ in obj)):
                         hit = I.small_table_lookup(obj, key, n, f)
                         if hit is not None:
                             return hit[1] if hit[0] else dflt
@@ -916,11 +916,14 @@ class BuiltinsMixin(AccessMixin):
                     items = I.iterate(src, n, f)
                     summary = isinstance(src, list) and getattr(src, "_summary", False)
                     if items is not None and not I.list_is_summary(src):
-                        r = Buf(cells=list(obj) if False else [])
                         out = Buf(cells=[])
                         for i, it in enumerate(items):
+                            if i and len(obj):
+                                out = I.buf_concat(out, Buf(cells=list(obj)))       # the separator
                             out = I.buf_concat(out, it)
                         return out
+                    if len(obj):
+                        raise AnalysisError("unmodelled-builtin", "bytes.join with a separator over a summarised list at %s" % f.where(n))
                     b = Buf(cells=None, length=Sym.opaque(("sumlen", I.list_name(src))), origin=f.where(n))
                     b.parts = [("join", src)]
                     b.join_of = src
@@ -930,6 +933,9 @@ class BuiltinsMixin(AccessMixin):
                 return I.mk("bytes.decode", lambda a, k, n, f: obj.decode(*a))
             return None
         if isinstance(obj, (Buf, View, SymBytes)):
+            if name == "join" and isinstance(obj, Buf) and obj.cells is not None and all(isinstance(norm_int(c), int) for c in obj.cells):
+                # bytearray(...).join(parts): the same as bytes.join with that separator (a bytearray comes out)
+                return I.method_of(bytes(norm_int(c) for c in obj.cells), "join", node, frame)
             if name == "decode":
                 def dec(a, k, n, f):
                     if isinstance(obj, Buf) and obj.cells is not None and all(isinstance(norm_int(c), int) for c in obj.cells):
